@@ -6,9 +6,10 @@ real loader.
 """
 
 import io
+import os
 
 from . import conf_common as cc
-from ..gen import family, rewrites, texts
+from ..gen import family, overrides, rewrites, texts
 from ..mon import outcome
 
 ID = "C15"
@@ -67,17 +68,49 @@ def shards(tier):
     return 16
 
 
-def compare(ctx, schema, corpus, base_text, root, case_extra, n_rewrites=3):
+def load_as(ctx, schema, text, entry, specs):
+    if entry == "path":
+        try:
+            text.encode("utf-8")
+        except UnicodeError:
+            return outcome.load_text(schema, text)
+        path = os.path.join(ctx.tmp, "c15 layout.conf")
+        outcome.write_text(path, text)
+        return outcome.load_path(schema, path)
+    if entry == "override":
+        return outcome.load_text(schema, text, overrides=specs)
+    return outcome.load_text(schema, text)
+
+
+def compare(ctx, schema, corpus, base_text, root, case_extra, n_rewrites=3,
+            ovr=None):
     res = ctx.res
     rng = ctx.rng("rw", res.evaluations)
-    o0 = outcome.load_text(schema, base_text)
+    # both texts are read the same way: from a string, from a file named by
+    # its path, or under one and the same list of command-line overrides
+    entry, specs = "text", None
+    r = rng.random()
+    if r < 0.25:
+        entry = "path"
+    elif r < 0.45 and ovr is not None and \
+            overrides.section_children(ovr[1]) is not None:
+        specs = []
+        for _ in range(rng.randint(1, 3)):
+            sp, _i = overrides.gen_spec(rng, ovr[0], ovr[1], 0.0, 0.0, 0.0)
+            if sp is not None:
+                specs.append(sp)
+        if specs:
+            entry = "override"
+    res.count("read_as_" + entry)
+    o0 = load_as(ctx, schema, base_text, entry, specs)
     for _ in range(n_rewrites):
         res.evaluations += 1
         text, kinds = rewrites.rewrite(rng, root)
         if text == base_text:
             res.count("identical_rewrite")
             continue
-        o1 = outcome.load_text(schema, text)
+        o1 = load_as(ctx, schema, text, entry, specs)
+        case_extra = dict(case_extra, entry=entry, overrides=specs)
         res.count("compared")
         res.count(corpus + "_compared")
         res.count("compared_" + o0[0])
@@ -213,7 +246,9 @@ def dollar_fault(rng, root):
     n = _DOLLAR_SERIAL[0]
     rng.choice(keys)[2] = rng.choice(
         ["pre%d ${app%d", "x%d$", "$-%d", "a%d $(ZCV_NOPE%d", "${q%d}$ z",
-         "$$ok%d ${", "$nosuchname%d", "${NoSuch%d}x", "v%d $("]) \
+         "$$ok%d ${", "$nosuchname%d", "${NoSuch%d}x", "v%d $(",
+         # set in the environment, defined nowhere in the text
+         "$ZCV_SET", "${ZCV_SET}", "$ZCV_SET"]) \
         .replace("%d", str(n))
     return True
 
@@ -230,7 +265,8 @@ def run_shard(ctx):
         if drng.random() < 0.1 and dollar_fault(drng, root):
             text = texts.render(root)
             ctx.res.count("with_dollar_fault")
-        compare(ctx, p.schema, "family", text, root, {"model": p.model})
+        compare(ctx, p.schema, "family", text, root, {"model": p.model},
+                ovr=(p.res, root))
     # shipped components
     lschema = cc.load_schema(LOGGER_SCHEMA)
     mschema = cc.load_schema(MAPPING_SCHEMA)
@@ -255,8 +291,10 @@ def replay(ctx, case):
         schema = cc.load_schema(LOGGER_SCHEMA)
     else:
         schema = cc.load_schema(MAPPING_SCHEMA)
-    o0 = outcome.load_text(schema, case["original"])
-    o1 = outcome.load_text(schema, case["rewritten"])
+    o0 = load_as(ctx, schema, case["original"], case.get("entry"),
+                 case.get("overrides"))
+    o1 = load_as(ctx, schema, case["rewritten"], case.get("entry"),
+                 case.get("overrides"))
     k0 = o0[:2] if o0[0] == "ok" else ("reject",)
     k1 = o1[:2] if o1[0] == "ok" else ("reject",)
     if k0 != k1:
